@@ -236,6 +236,7 @@ func main() {
 	os.MkdirAll(*out, 0o755)
 	genTables(*repo, *out)
 	genSkeletons(*repo, *out)
+	genShared(*repo, *out)
 }
 
 func genTables(repo, out string) {
